@@ -430,8 +430,8 @@ func c19Fuzz(c *fw.Ctx, i int) {
 			v := c19Build(r, n, 1+r.Intn(1<<(4*uint(n))-1), r.Bool())
 			in = ref.EncodeVLA(v)
 			origin = "mutant"
-			switch r.Intn(6) {
-			case 4, 5:
+			switch r.Intn(7) {
+			case 5, 6:
 				origin = "valid" // an unmodified valid encoding after an arbitrary history on the same receiver
 			case 0:
 				in = in[:r.Intn(len(in)+1)]
@@ -439,6 +439,10 @@ func c19Fuzz(c *fw.Ctx, i int) {
 				in[r.Intn(len(in))] ^= 1 << uint(r.Intn(8))
 			case 2:
 				in[r.Intn(len(in))] = gen.BoundaryBytes[r.Intn(len(gen.BoundaryBytes))]
+			case 3:
+				// a bitrate field replaced by a LEB128 monster (nine and more bytes, bit 63 set, unterminated)
+				pos := r.Intn(len(in) + 1)
+				in = append(append(append([]byte{}, in[:pos]...), gen.LEBMonster(r)...), in[pos:]...)
 			default:
 				in = append(in, r.Bytes(r.Range(1, 6))...)
 			}
